@@ -126,16 +126,43 @@ func (a *Adv) ContractProbes() int {
 		}
 		break
 	}
-	// ---- v1 revisions breaking a rule (honestly signed)
+	// ---- v1 revisions breaking a rule (honestly signed). The revision number is compared with the contract as
+	// it stands: the stored contract, one formed earlier in this block, or its latest in-block revision.
+	standingV1 := map[types.FileContractID]types.FileContract{}
+	probedV1 := 0
 	for ti := range a.Honest.Transactions {
 		orig := a.Honest.Transactions[ti]
+		note := func() {
+			for i, fc := range orig.FileContracts {
+				standingV1[orig.FileContractID(i)] = fc
+			}
+			for _, r := range orig.FileContractRevisions {
+				standingV1[r.ParentID] = r.FileContract
+			}
+		}
 		if len(orig.FileContractRevisions) == 0 {
+			note()
 			continue
 		}
 		r0 := orig.FileContractRevisions[0]
-		parent, ok := a.G.C.Store.FC[r0.ParentID]
-		if !ok {
+		var parent types.FileContractElement
+		cur, inBlock := standingV1[r0.ParentID]
+		if inBlock {
+			parent.FileContract = cur
+		} else if e, ok := a.G.C.Store.FC[r0.ParentID]; ok {
+			parent = e
+		} else {
+			note()
 			continue
+		}
+		note()
+		if probedV1 > 0 && !inBlock {
+			continue
+		}
+		probedV1++
+		pfx := "v1-revision/"
+		if inBlock {
+			pfx = "v1-revision-again-in-block/"
 		}
 		mk := func(name string, f func(r *types.FileContractRevision) bool) {
 			blk := CloneBlock(a.Honest)
@@ -144,7 +171,7 @@ func (a *Adv) ContractProbes() int {
 				return
 			}
 			SignV1(a.CS, x, false)
-			if a.emit(blk, "v1-revision/"+name, "reject", nil, nil) {
+			if a.emit(blk, pfx+name, "reject", nil, nil) {
 				n++
 			}
 		}
@@ -176,7 +203,6 @@ func (a *Adv) ContractProbes() int {
 			return true
 		})
 		mk("window-end-before-start", func(r *types.FileContractRevision) bool { r.WindowEnd = r.WindowStart; return true })
-		break
 	}
 	// ---- v2 storage proofs
 	for ti := range a.Honest.V2Transactions() {
@@ -260,21 +286,41 @@ func (a *Adv) ContractProbes() int {
 			break
 		}
 	}
-	// ---- v2 revisions breaking a rule (signed by the current keys)
+	// ---- v2 revisions breaking a rule (signed by the current keys). The rules compare with the contract as
+	// it stands: the parent element, or the latest revision an earlier transaction of this block made.
+	standing := map[types.FileContractID]types.V2FileContract{}
+	probed := 0
 	for ti := range a.Honest.V2Transactions() {
 		orig := a.Honest.V2.Transactions[ti]
 		if len(orig.FileContractRevisions) == 0 {
 			continue
 		}
-		cur := orig.FileContractRevisions[0].Parent.V2FileContract
+		id := orig.FileContractRevisions[0].Parent.ID
+		cur, inBlock := standing[id]
+		if !inBlock {
+			cur = orig.FileContractRevisions[0].Parent.V2FileContract
+		}
+		for _, r := range orig.FileContractRevisions {
+			standing[r.Parent.ID] = r.Revision
+		}
+		if probed > 0 && !inBlock {
+			continue // one first revision and every repeated revision
+		}
+		probed++
+		opts := SignOpts{}
+		pfx := "v2-revision/"
+		if inBlock {
+			opts.CurrentContract = map[types.FileContractID]types.V2FileContract{id: cur}
+			pfx = "v2-revision-again-in-block/"
+		}
 		mk := func(name string, f func(fc *types.V2FileContract) bool) {
 			blk := CloneBlock(a.Honest)
 			x := &blk.V2.Transactions[ti]
 			if !f(&x.FileContractRevisions[0].Revision) {
 				return
 			}
-			SignV2(a.CS, x, SignOpts{})
-			if a.emit(blk, "v2-revision/"+name, "reject", nil, nil) {
+			SignV2(a.CS, x, opts)
+			if a.emit(blk, pfx+name, "reject", nil, nil) {
 				n++
 			}
 		}
@@ -318,7 +364,6 @@ func (a *Adv) ContractProbes() int {
 		})
 		mk("filesize-over-capacity", func(fc *types.V2FileContract) bool { fc.Filesize = fc.Capacity + 1; return true })
 		mk("expiration-not-after-proof", func(fc *types.V2FileContract) bool { fc.ExpirationHeight = fc.ProofHeight; return true })
-		break
 	}
 	// ---- v2 renewal breaking the value split
 	for ti := range a.Honest.V2Transactions() {
